@@ -217,7 +217,7 @@ def sim_flow(ctx: Ctx):
     ctx.ob("FLOW:frame", ok, prog.where(r), "the processed panel is converted with the loop's number of periods"
            if ok else "result is not _as_data_frame(processed, n_periods=n_periods)", lhs=show(r)[:200])
     proc = [s for s in walk(r) if callee_name(s) == "lcm.simulate._process_simulated_data"]
-    ok = bool(proc) and proc[0][2] == (("loopout", lid, res_name),)
+    ok = bool(proc) and (proc[0][2][0] if proc[0][2] else kw(proc[0], "results")) == ("loopout", lid, res_name)
     ctx.ob("FLOW:panel-from-results", ok, prog.where(r), "the panel is built from all per-period results" if ok else
            "the panel is not built from the per-period result list", lhs=show(proc[0])[:120] if proc else "missing")
 
